@@ -66,17 +66,21 @@ def assign(items, subs, nproc):
 def run_workers(prop, tier, seed, bins, subs_env):
     tmp = tempfile.mkdtemp(prefix=f"verif_{prop}_", dir=os.path.join(HERE, ".cache"))
     procs = []
+    # wall-clock budget: workers stop starting new cases at 80% of it (cooperative, results kept); a worker still running
+    # at 100% is killed.  Either way the outcome is "inconclusive for what was not run", never a violation or an error.
+    budget = float(os.environ.get("VERIF_WALL_BUDGET", "1500" if tier == "quick" else "7200"))
+    t_launch = time.time()
     for k, b in enumerate(bins):
         out = os.path.join(tmp, f"w{k}.json")
         cmd = [env.PY, "-m", "vlib.worker", prop, "--tier", tier, "--seed", str(seed),
                "--items", ",".join(map(str, b)), "--out", out]
         e = env.worker_env(extra=subs_env.get(k))
         e["VERIF_BREADCRUMB"] = os.path.join(tmp, f"w{k}.crumb")
+        e["VERIF_DEADLINE"] = repr(t_launch + 0.8 * budget)
         log = open(os.path.join(tmp, f"w{k}.log"), "w")
         procs.append((subprocess.Popen(cmd, cwd=HERE, env=e, stdout=log, stderr=subprocess.STDOUT), out, log, k))
     results = []
-    budget = float(os.environ.get("VERIF_WALL_BUDGET", "1500" if tier == "quick" else "14400"))
-    t_start = time.time()
+    t_start = t_launch
     for p, out, log, k in procs:
         try:
             rc = p.wait(timeout=max(1.0, budget - (time.time() - t_start)))
@@ -87,7 +91,7 @@ def run_workers(prop, tier, seed, bins, subs_env):
             rc = 3
             print(f"note: worker {k} exceeded the wall-clock budget of {budget:.0f}s and was stopped (inconclusive)")
             if not os.path.exists(out):
-                json.dump(dict(status="ok", notes=[f"worker {k} stopped 0.0s"]), open(out, "w"))
+                json.dump(dict(status="ok", notes=[f"worker {k} stopped 0.0s"], budget_killed=True), open(out, "w"))
         log.close()
         if os.path.exists(out):
             r = json.load(open(out))
@@ -116,7 +120,7 @@ def run_workers(prop, tier, seed, bins, subs_env):
             r["status"] = "ok"
             r.setdefault("notes", []).append(f"worker {k} stalled 0.0s")
             print(f"note: a worker made no progress on one case within the time limit (inconclusive, not a violation); case saved to {sp}")
-        elif rc not in (0, 2) and r.get("status") == "ok" and not (rc < 0 and r.get("failures")):
+        elif rc not in (0, 2) and r.get("status") == "ok" and not (rc < 0 and r.get("failures")) and not r.get("budget_killed"):
             r["status"] = "harness_error"
             r["error"] = f"worker {k} rc={rc}"
         results.append(r)
@@ -280,6 +284,7 @@ def main():
     wall = time.time() - t0
     distinct = len(merged["nontrivial"]) + merged["nontrivial_constructed"]
     exhaustive_all = bool(merged["exhaustive"]) and getattr(mod, "ALL_EXHAUSTIVE", False)
+    budget_notes = [n_ for n_ in merged["notes"] if "budget" in n_ or " stopped " in n_]
     evidence = dict(
         property_id=prop, tier=tier, seed=seed, level="exploration", wall_s=round(wall, 2),
         violations=len(by_bucket),
@@ -295,6 +300,7 @@ def main():
             regressions_replayed=len(reg_results),
             work_items=len(items), workers=len(bins),
             harness_errors=len(harness_errors),
+            wall_clock_budget_notes=budget_notes,
             engine="hypothesis %s + enumeration" % __import__("hypothesis").__version__,
             oracle=getattr(mod, "ORACLE", ""),
         ),
@@ -309,8 +315,10 @@ def main():
             json.dump(evidence, fh, indent=1, sort_keys=True, default=core.jdefault)
 
     if os.environ.get("VERIF_VERBOSE"):
-        for n_ in sorted(merged["notes"], key=lambda x: -float(x.rsplit(" ", 1)[1][:-1])):
+        for n_ in merged["notes"]:
             print("   ", n_)
+    for n_ in budget_notes[:8]:
+        print("note:", n_)
     print(f"{prop} tier={tier} seed={seed}: {merged['evaluations']} evaluations, {distinct} distinct non-trivial, "
           f"{len(by_bucket)} violation bucket(s), {len(harness_errors)} harness error(s), {wall:.0f}s")
     for b, v in sorted(by_bucket.items()):
